@@ -20,7 +20,7 @@ def job(j):
     if case['cfg']['solver'] == 'scipy':
         kw = dict(rtol=1e-9, atol=1e-11)
     return linmodel.run_model(case['m'], case['cfg'], scale=v['scale'], precision=v['precision'],
-                              cutoff_shift=v['cutoff_shift'], **kw)
+                              cutoff_shift=v['cutoff_shift'], decimal=v.get('decimal', False), **kw)
 
 
 def variants_for(case, tier, k):
@@ -55,6 +55,9 @@ def run(ctx):
     for k, case in enumerate(cases):
         for v in variants_for(case, tier, k + ctx.seed):
             jobs.append(dict(case=case, variant=v))
+        # decimal step sizes: T / dt is not an exact float quotient (0.3 / 0.1 = 2.9999999999999996); tolerance compare
+        if case['cfg']['solver'] != 'scipy' and (k % 3 == 0 or tier == 'thorough') and not any(e.get('lag') for e in case['m']['edges']):
+            jobs.append(dict(case=case, variant=dict(scale=[0.1, 0.001, 0.01][k % 3], precision='float64', cutoff_shift=0.0, decimal=True)))
     results = run_cases(job, jobs, timeout=300)
     for j, obs in zip(jobs, results):
         case, v = j['case'], j['variant']
@@ -69,7 +72,7 @@ def run(ctx):
                 ctx.violation(dict(kind='conformance', what='adaptive run vs exact polynomial solution',
                                    case=dict(model=case['m'], cfg=case['cfg'], variant=v), observed=obs, expected=exp))
             continue
-        sc.judge(ctx, case, v, obs, 'run() rows/index vs Euler/Heun iterates')
+        sc.judge(ctx, case, v, obs, 'run() rows/index vs Euler/Heun iterates', tol=1e-9 if v.get('decimal') else 0.0)
     # code -> spec: the recorded right-hand-side calls of real runs must be a behaviour of Solver.tla
     import random
     from .. import solvertrace
